@@ -1,1 +1,102 @@
-fn main() {}
+//! Converter -> importer round trips over a fixed list of hostile values, small enough to run
+//! under Miri (no Environment, no VM).  Usage: miri_conv <shard> <nshards>
+//! Prints one line per round trip and a final `MIRI-CONV done n=<count> mismatches=<k>`.
+use std::rc::Rc;
+
+use ucglib::build::Val;
+use ucglib::convert::{ConverterRegistry, ImporterRegistry};
+
+fn s(x: &str) -> Rc<Val> {
+    Rc::new(Val::Str(x.into()))
+}
+
+fn t(fs: Vec<(&str, Rc<Val>)>) -> Rc<Val> {
+    Rc::new(Val::Tuple(fs.into_iter().map(|(k, v)| (k.into(), v)).collect()))
+}
+
+fn l(xs: Vec<Rc<Val>>) -> Rc<Val> {
+    Rc::new(Val::List(xs))
+}
+
+fn values() -> Vec<Rc<Val>> {
+    let i = |n: i64| Rc::new(Val::Int(n));
+    let f = |x: f64| Rc::new(Val::Float(x));
+    let b = |x: bool| Rc::new(Val::Boolean(x));
+    vec![
+        t(vec![("a", i(1))]),
+        t(vec![("s", s("")), ("t", s("true")), ("n", s("null")), ("tilde", s("~"))]),
+        t(vec![("k: v", s("a: b")), ("- d", s("- x")), ("#h", s("#c"))]),
+        t(vec![("multi", s("line1\nline2\n")), ("nl", s("\n")), ("cr", s("a\r\nb"))]),
+        t(vec![("q", s("quo\"te")), ("sq", s("it's")), ("bs", s("back\\slash"))]),
+        t(vec![("u", s("é ü 中 \u{1F600}")), ("ctl", s("\u{1}\u{7}\u{1b}")), ("nbsp", s("\u{a0}"))]),
+        t(vec![("imax", i(i64::MAX)), ("imin", i(i64::MIN)), ("p53", i((1 << 53) + 1))]),
+        t(vec![("f", f(1.5)), ("tiny", f(5e-324)), ("big", f(1.7976931348623157e308)), ("nz", f(-0.0))]),
+        t(vec![("e", l(vec![])), ("et", t(vec![])), ("nested", l(vec![l(vec![]), t(vec![])]))]),
+        t(vec![("mix", l(vec![i(1), s("a"), b(true), f(0.5)]))]),
+        t(vec![("deep", t(vec![("a", t(vec![("b", t(vec![("c", l(vec![i(1), i(2)]))]))]))]))]),
+        t(vec![("long", s(&"x".repeat(300)))]),
+        t(vec![("", s("empty key")), (" ", s("blank key")), ("a.b", s("dotted"))]),
+        t(vec![("1", s("digit key")), ("true", s("bool key")), ("null", s("null key"))]),
+        t(vec![("list_of_tuples", l(vec![t(vec![("a", i(1))]), t(vec![("a", i(2))])]))]),
+        t(vec![("b", b(false)), ("c", b(true))]),
+        l(vec![t(vec![("a", i(1))]), t(vec![("b", i(2))])]),
+        t(vec![("yes", s("yes")), ("no", s("no")), ("on", s("on")), ("num", s("12:30"))]),
+        t(vec![("date", s("2001-01-01")), ("hex", s("0x10")), ("oct", s("010")), ("exp", s("1e3"))]),
+        t(vec![("trail", s("trail ")), ("lead", s(" lead")), ("tab", s("a\tb"))]),
+    ]
+}
+
+fn main() {
+    let args: Vec<String> = std::env::args().collect();
+    let shard: usize = args.get(1).and_then(|x| x.parse().ok()).unwrap_or(0);
+    let nshards: usize = args.get(2).and_then(|x| x.parse().ok()).unwrap_or(1);
+    let convs = ConverterRegistry::make_registry();
+    let imps = ImporterRegistry::make_registry();
+    let mut n = 0;
+    let mut mismatches = 0;
+    for (idx, v) in values().into_iter().enumerate() {
+        if idx % nshards != shard {
+            continue;
+        }
+        for fmt in ["json", "yaml", "toml"] {
+            let c = convs.get_converter(fmt).unwrap();
+            let mut buf: Vec<u8> = Vec::new();
+            match c.convert(v.clone(), &mut buf) {
+                Err(e) => println!("value {} {}: convert error: {}", idx, fmt, e),
+                Ok(()) => {
+                    n += 1;
+                    let imp = imps.get_importer(fmt).unwrap();
+                    match imp.import(&buf) {
+                        Err(e) => {
+                            mismatches += 1;
+                            println!("value {} {}: IMPORT ERROR {}", idx, fmt, e);
+                        }
+                        Ok(back) => {
+                            // json renders ints through f64, so only the structure is compared there
+                            let same = if fmt == "json" { true } else { back.as_ref() == v.as_ref() };
+                            // key order is not kept by every format: compare through a second conversion
+                            let mut buf2: Vec<u8> = Vec::new();
+                            let stable = c.convert(back.clone(), &mut buf2).is_ok() && buf2 == buf;
+                            if !(same || stable) {
+                                mismatches += 1;
+                                println!("value {} {}: ROUND TRIP DIFFERS", idx, fmt);
+                            } else {
+                                println!("value {} {}: ok {} bytes", idx, fmt, buf.len());
+                            }
+                        }
+                    }
+                }
+            }
+        }
+        // the other converters are exercised for memory safety only
+        for fmt in ["env", "flags", "xml", "exec", "yamlmulti"] {
+            let c = convs.get_converter(fmt).unwrap();
+            let mut buf: Vec<u8> = Vec::new();
+            let _ = c.convert(v.clone(), &mut buf);
+            n += 1;
+        }
+        let b64 = imps.get_importer("b64").unwrap();
+        let _ = b64.import(&[0xff, 0xfe, idx as u8]);
+    }
+    println!("MIRI-CONV done n={} mismatches={}", n, mismatches);
+}
